@@ -24,6 +24,7 @@ var avoidable = []string{
 	"after-rconf-delete", "after-rconf-delete-highest-id", "after-rconf-add", "after-rconf-add-with-snapshot",
 	"concurrent-clients-one-node", "clients-on-several-nodes",
 	"ttl-command", "ttl-command-replayed-at-restart",
+	"nondeterministic-command",
 }
 
 func knownClass(env *core.Env, class string) bool {
@@ -478,6 +479,7 @@ func genC07(rng *core.Rand, env *core.Env, run int) *Scenario {
 		sprinkleMgmt(r, sc, 1+r.Intn(4), quiet && len(sc.Faults.Kinds) == 0 && k.DropPM == 0 && r.Bool(0.3))
 	}
 	ttlShare(r, sc, av, ttlShareOf(env))
+	nondetShare(r, sc, av, 0.12)
 	prescreen(sc)
 	return sc
 }
